@@ -130,11 +130,15 @@ META = {
     "C19": {"profiles": ["c19_matrix"], "quick": 1600, "thorough": 3200, "enumerate": True},
     "C20": {"profiles": ["c20_change_cache", "c20_snapshot_cache"], "quick": 6000, "thorough": 120000},
     "C14": {"level": "Local sessions of one client (the property's quantifier: no remote changes) with single-edit Updates from the content alphabet plus approximate kinds, random well-nested Undo/Redo: a content stack predicts the canonical content (text as attribute runs, trees as XML) after every Undo/Redo of an exact kind; Undo/Redo never fail; clone == root; the final synchronisation succeeds.", "note": _common + "; five undo defects of the pinned tree are listed as known; undo after synchronisation/GC is outside this check (see C15)"},
+    "C19": {"level": "The five pair matrices (ranges x op1 x op2) are extracted at build time from test/complex/tree_concurrency_test.go of the CURRENT tree (data and op.run methods are upstream's, the runner is the simulator): every one of the 1592 cells x both sync orders is one simulated run with two change-fed clients and a third client fed by snapshot that edits on top of it; oracles: ToXML and Marshal equal on all three and on the server's rebuild, clone == root, no step fails. The quick tier already sweeps the whole matrix (3184 runs, ~20 s).", "note": _common + "; exhaustive over the declared matrix, exploration beyond it is C01's job", "technique": "deterministic simulation, exhaustive sweep of a finite matrix of two-client schedules"},
+    "C20": {"level": "(a) the real mongo.ChangeStore is driven through the call protocol of mongo/client.go (ReplaceOrInsert+ExpandRange by writers, EnsureChanges+ChangesInRange by readers, eviction, fetch errors, changes stored by other nodes) against a ground-truth table with presence-only holes: served range == table range, the fetcher is never asked for a covered sequence number; (b) C02-style sessions with frequent rebuild steps: BuildInternalDocForServerSeq(s) at the head and at earlier points with the cache as it is == after Purge() == replicas holding the same vector, interleaved with pushes, purges, tiny caches, restarts.", "note": _common + "; the Mongo collection and the glue in mongo/client.go are a stub (a change there is not seen); pkg/cache LRU expiry is not covered"},
     "C18": {"level": "At sync points and at quiescence every replica's document goes through FromCRDT -> Marshal -> Unmarshal -> SetYSON into a fresh Document -> FromCRDT; generated YSON literals of every element type enter through SetYSONElement/WithInitialRoot; a revision created mid-run is restored at the end and must give every replica the recorded content; after all clients detached the real compaction must succeed and keep the content.", "note": _common},
 }
 
 NOT_CLAIMED = {
     "C15": "not claimed: on the pinned tree undo/redo combined with synchronisation violates the property in many distinct ways (sync failures 'child not found' / 'not applicable datatype' / 'node not found', divergence, upstream's own remote-redo divergence); the simulator profile exists (sim/props_c14.go, c15_undo_sync) and finds them within seconds, but a check that is quiet on the unchanged tree would have to list a finding so broad that it decides nothing - see DESIGN.md section 9",
+    "C09": "not claimed: the lossless half is exercised implicitly by every other check (every message crosses the real encoders; an encoder that drops something shows up as divergence), but the dedicated re-encode/shadow-replica oracles and the byte-corruption fault kind were not built in this session",
+    "C13": "not claimed: the intruder actor (all procedures from the service descriptors x credentials x foreign ids, victim state byte-identical) was not built in this session; the read-only finding of the design phase (yorkieServer.GetRevision does not compare the revision's project/document) is recorded in DESIGN.md section 9 but not demonstrated by a check",
     "C07": "not claimed: the sequential reference models (string/slice/map/XML) were not built in the time available; a partial canonical-content model exists only inside the C14 oracle",
     "C16": "not claimed: needs the step-level engine (interleavings inside requests, lock model, race oracle) described in DESIGN.md section 3.5-3.7; it was prototyped during design (deadlock in cluster DetachDocument demonstrated) but not rebuilt in this session",
     "C17": "not claimed: needs the step-level engine over pkg pubsub (interleavings at mutex/channel operations); not built in this session",
